@@ -60,6 +60,48 @@ let () =
       | ["X"; hex] ->
         let recs = cli q (bytes_of_hex hex) in
         pr (TN (n_of_int 108, List.map (t_cli fbits) recs)); flush_line ()
+      | ["A"; p1; p2; d; fix; hex] ->
+        (* two-byte sweep (see the harness): digest of the 65536 token lines *)
+        let p1 = int_of_string p1 and p2 = int_of_string p2 in
+        let bytes = Bytes.of_string (let l = String.length hex / 2 in String.init l (fun i -> Char.chr (int_of_string ("0x" ^ String.sub hex (2 * i) 2)))) in
+        let len = Bytes.length bytes in
+        let star = try Some (Bytes.rindex bytes '*') with Not_found -> None in
+        let h1 = ref 2166136261 and h2 = ref 0x9747b28c in
+        let hexd = "0123456789ABCDEF" in
+        for y = 0 to 255 do
+          for z = 0 to 255 do
+            Bytes.set bytes p1 (Char.chr y); Bytes.set bytes p2 (Char.chr z);
+            (if fix = "1" then match star with
+              | Some s when s + 2 < len && s >= 1 ->
+                let x = ref 0 in
+                for i = 1 to s - 1 do x := !x lxor Char.code (Bytes.get bytes i) done;
+                Bytes.set bytes (s + 1) hexd.[!x lsr 4]; Bytes.set bytes (s + 2) hexd.[!x land 15]
+              | _ -> ());
+            let line = List.init len (fun i -> n_of_int (Char.code (Bytes.get bytes i))) in
+            let (st', o) = step c q p_init line (d = "1") in
+            pr (t_step fbits o); Buffer.add_string buf " ; "; pr (t_state st'); Buffer.add_char buf '\n';
+            String.iter (fun ch ->
+              h1 := ((!h1 lxor Char.code ch) * 16777619) land 0xFFFFFFFF;
+              h2 := ((!h2 lxor Char.code ch) * 709607) land 0xFFFFFFFF) (Buffer.contents buf);
+            Buffer.clear buf
+          done
+        done;
+        Buffer.add_string buf (Printf.sprintf "A %08x%08x" !h1 !h2); flush_line ()
+      | ["B"; p1; p2; hex] ->
+        let p1 = int_of_string p1 and p2 = int_of_string p2 in
+        let bytes = Array.of_list (bytes_of_hex hex) in
+        let h1 = ref 2166136261 and h2 = ref 0x9747b28c in
+        for y = 0 to 255 do
+          for z = 0 to 255 do
+            bytes.(p1) <- n_of_int y; bytes.(p2) <- n_of_int z;
+            pr (t_msg fbits (msg_parse c q (Array.to_list bytes))); Buffer.add_char buf '\n';
+            String.iter (fun ch ->
+              h1 := ((!h1 lxor Char.code ch) * 16777619) land 0xFFFFFFFF;
+              h2 := ((!h2 lxor Char.code ch) * 709607) land 0xFFFFFFFF) (Buffer.contents buf);
+            Buffer.clear buf
+          done
+        done;
+        Buffer.add_string buf (Printf.sprintf "B %08x%08x" !h1 !h2); flush_line ()
       | [""] | [] -> ()
       | _ -> failwith ("bad case line: " ^ line)
     done
